@@ -450,13 +450,23 @@ func findLex(kind byte, name string, f *pFrame) *pObj {
 	return nil
 }
 
-// lookup resolves a name for use. The second result is a discard when lexical
-// and dynamic scoping disagree.
+// lookup resolves a name for use. The second result is a discard when the
+// manual does not determine the resolution: a function name that lexical and
+// dynamic scoping resolve differently, or a variable / cursor / table found
+// outside the function invocation that uses it (whether a function body sees
+// outer objects at all is not documented).
 func (in *interp) lookup(kind byte, name string, f *pFrame) (*pObj, *pErr) {
 	d := findDyn(kind, name, f)
 	l := findLex(kind, name, f)
 	if d != l {
 		return nil, pdiscard("lexical_vs_dynamic_" + string(kind))
+	}
+	if d != nil && kind != 'f' {
+		for x := f; x != d.frame; x = x.dyn {
+			if x.isInv {
+				return nil, pdiscard("free_name_in_function_" + string(kind))
+			}
+		}
 	}
 	if d != nil && d.released {
 		in.st.ShadowReadAfter++
@@ -588,8 +598,10 @@ func (in *interp) eval(e *PExpr, f *pFrame) (PVal, *pErr) {
 	return pNull, pdiscard("unknown_expr_" + e.K)
 }
 
-// evalPair evaluates two operands whose evaluation order is not documented:
-// whenever the order could be observed the run is discarded.
+// evalPair evaluates two operands whose evaluation order and short-circuiting
+// are not documented (csvq, for one, skips the right operand of an arithmetic
+// or comparison operator when the left one is NULL): whenever order or
+// skipping could be observed the run is discarded.
 func (in *interp) evalPair(a, b *PExpr, f *pFrame, op func(a, b PVal) PVal) (PVal, *pErr) {
 	if hasCall(a) && hasCall(b) {
 		return pNull, pdiscard("two_calls_in_expression")
@@ -602,10 +614,17 @@ func (in *interp) evalPair(a, b *PExpr, f *pFrame, op func(a, b PVal) PVal) (PVa
 		if hasCall(b) {
 			return pNull, pdiscard("error_beside_call")
 		}
-		if _, eb := in.eval(b, f); eb != nil && (eb.discard || eb.class != ea.class) {
+		vb, eb := in.eval(b, f)
+		if eb != nil && (eb.discard || eb.class != ea.class) {
 			return pNull, pdiscard("two_errors_in_expression")
 		}
+		if eb == nil && vb.Null {
+			return pNull, pdiscard("error_beside_null_operand")
+		}
 		return pNull, ea
+	}
+	if va.Null && hasCall(b) {
+		return pNull, pdiscard("call_beside_null_operand")
 	}
 	vb, eb := in.eval(b, f)
 	if eb != nil {
@@ -615,7 +634,13 @@ func (in *interp) evalPair(a, b *PExpr, f *pFrame, op func(a, b PVal) PVal) (PVa
 		if hasCall(a) {
 			return pNull, pdiscard("error_beside_call")
 		}
+		if va.Null {
+			return pNull, pdiscard("error_beside_null_operand")
+		}
 		return pNull, eb
+	}
+	if vb.Null && hasCall(a) {
+		return pNull, pdiscard("call_beside_null_operand")
 	}
 	r := op(va, vb)
 	if !r.Null && (r.N > pMaxAbs || r.N < -pMaxAbs) {
